@@ -207,7 +207,7 @@ pub fn run(ctx: &Ctx) -> Report {
         }
         return rep;
     }
-    let budget = ctx.budget(2_000_000, 50_000_000);
+    let budget = ctx.budget(20_000_000, 400_000_000);
     let seed = ctx.seed;
     let (tmin, tmax_sys) = system_time_extremes();
     let mut rep = parallel(ctx.threads, |shard, n| {
